@@ -82,6 +82,7 @@ class ProjectReuseInfoOf:
     ghost = {"v0": "str", "x0": "Expr", "sp0": "Optional[str]", "st0": "Optional[SourceType]"}
     # callers (FileReport.generate) refer to the result through the ghost function infos_of(project, path)
     result_name = lambda self, path: infos_of(self, path)
+    name_only_at_calls = True       # FileReport.generate needs the name only; the postcondition is C04's own obligation
 
     def post(self, path, result, v0, x0, sp0, st0):
         lp = license_path(path)
